@@ -1,15 +1,15 @@
 #!/bin/sh
 # seedingest.sh <PROP> <suffix> <demo regex>: verify the sub-agent's change in /tmp/seed/<PROP>, store it as seeded/<PROP><suffix>, run the check.
 p=$1; suf=$2; re=$3
-res=$(/verif/tools/seedverify.sh /tmp/seed/$p "$re" 2>&1 | tail -1)
+res=$(/verif/tools/seedverify.sh ${SEEDBASE:-/tmp/seed}/$p "$re" 2>&1 | tail -1)
 echo "$p verify: $res"
 case "$res" in *"suite_with_change=pass demo_with_change=fail demo_without_change=pass"*) ;; *) echo "NOT CONFIRMED"; exit 1;; esac
 d=/verif/seeded/${p}${suf}; mkdir -p $d
-cp /tmp/seed/$p/_seed/patch.diff $d/
-for f in /tmp/seed/$p/_seed/*_test.go /tmp/seed/$p/_seed/*.go; do [ -f "$f" ] && cp "$f" $d/; done
+cp ${SEEDBASE:-/tmp/seed}/$p/_seed/patch.diff $d/
+for f in ${SEEDBASE:-/tmp/seed}/$p/_seed/*_test.go ${SEEDBASE:-/tmp/seed}/$p/_seed/*.go; do [ -f "$f" ] && cp "$f" $d/; done
 python3 - <<PY
 import json
-m=json.load(open('/tmp/seed/$p/_seed/meta.json'))
+m=json.load(open('${SEEDBASE:-/tmp/seed}/$p/_seed/meta.json'))
 out={"id":"${p}${suf}","property":"$p","breaks":m.get("summary"),"needs":m.get("needs"),"files":m.get("files"),"demo_cmd_of_author":m.get("demo_cmd"),
  "author":"independent sub-agent given only the property text and a scratch worktree",
  "confirmed_by_me":"tools/seedverify.sh in the agent's scratch worktree: full existing suite passes with the change; demo fails with it; demo passes without it"}
